@@ -2,7 +2,7 @@
 import z3
 
 from .interp import Model, _simp
-from .values import Sym, Unsupported, VList, PyRaise, Native, NOTFOUND, Infeasible
+from .values import Sym, Unsupported, VList, PyRaise, Native, NOTFOUND, Infeasible, Poison, Obj, tick
 
 
 class PathEnd(Exception):
@@ -154,6 +154,73 @@ class CnfView(Model):
         return Sym(self.n)
 
 
+_MISSING = object()
+
+
+class CutFrame:
+    """Frame condition of a cut (rule R1 loop / rule R6 procedure body).  `before` the specification installs its fresh
+    state the bindings of the enclosing environments and the fields of the objects they reach are recorded; `after` it,
+      * every name the cut code (re)binds syntactically (`assigned`) that the specification did NOT re-bind is POISONED:
+        a read before the code itself assigns it - in the body, in the loop condition or after the loop - raises
+        Unsupported, i.e. the function becomes undecided instead of being verified from a stale value;
+      * a Barrier is returned that is put in force while the body runs: mutating a concrete list / dict / set or assigning
+        an attribute / an enclosing-scope name that exists since before the cut and was not re-created by the
+        specification raises Unsupported as well (this also covers what callees of the body do).
+    `spec.frame` (names) and `spec.frame_objects(it, env)` (objects) let a specification state that it describes a
+    location in place."""
+
+    def __init__(self, it, env, assigned, what, spec=None):
+        from .interp import env_chain
+        self.it, self.env, self.what, self.spec = it, env, what, spec
+        self.chain = env_chain(env)
+        nl = env.get('__nonlocal__', ())
+        self.assigned = []
+        for n in sorted(assigned):
+            e = env
+            if n in nl:
+                e = next((x for x in self.chain[1:] if n in x), None)
+                if e is None:
+                    continue
+            self.assigned.append((e, n))
+        self.snap = {id(e): dict(e) for e in self.chain}
+        self.objs = {}
+        for e in self.chain:
+            for v in list(e.values()):
+                if isinstance(v, Obj) and v.oid not in self.objs:
+                    self.objs[v.oid] = v
+                    for w in list(v.fields.values()):
+                        if isinstance(w, Obj) and w.oid not in self.objs:
+                            self.objs[w.oid] = w
+        self.fsnap = {oid: dict(o.fields) for oid, o in self.objs.items()}
+        self.t0 = tick()
+
+    def after(self):
+        from .interp import Barrier
+        names, fields = set(), set()
+        for e in self.chain:
+            old = self.snap[id(e)]
+            for n, v in e.items():
+                if old.get(n, _MISSING) is not v:
+                    names.add((id(e), n))
+        for oid, o in self.objs.items():
+            old = self.fsnap[oid]
+            for f, v in o.fields.items():
+                if old.get(f, _MISSING) is not v:
+                    fields.add((oid, f))
+        declared = set(getattr(self.spec, 'frame', ()) or ())
+        for e, n in self.assigned:
+            if (id(e), n) in names or n in declared:
+                names.add((id(e), n))
+                continue
+            e[n] = Poison(n, f'it is assigned inside {self.what} and the invariant / contract there does not describe it')
+            names.add((id(e), n))
+        allow = set()
+        fo = getattr(self.spec, 'frame_objects', None)
+        if callable(fo):
+            allow = {id(x) for x in fo(self.it, self.env)}
+        return Barrier(self.what, self.t0, [id(e) for e in self.chain], names, fields, allow)
+
+
 def install_loop_rule(it):
     """Adds rule R1 to the interpreter: loops with a registered LoopSpec are cut by their invariant."""
     it.loop_specs = {}
@@ -196,6 +263,9 @@ def install_loop_rule(it):
             # 2. fork: arbitrary iteration vs. exit
             which = ctx.fresh(z3.BoolSort(), 'loopcut')
             closed = hasattr(spec, 'install')      # closed-form state per iteration instead of havoc+assume
+            from .interp import stored_names
+            assigned = stored_names(st.body) | (stored_names([_ast.Assign(targets=[st.target], value=None)]) if is_for else set())
+            cut = CutFrame(it, env, assigned, f'the body of cut loop {key[1]} of {key[0].split("::")[-1]}', spec)
             if ctx.choose(which):
                 k = ctx.fresh(z3.IntSort(), 'k')
                 ctx.assume(k >= 0)
@@ -207,6 +277,7 @@ def install_loop_rule(it):
                     spec.havoc(it, env)
                     for nm, g in (spec.inv_assume(it, env, k) if hasattr(spec, 'inv_assume') else spec.inv(it, env, k)):
                         ctx.assume(g)
+                barrier = cut.after()
                 if is_for:
                     seq = iterable
                     if getattr(seq, 'prefix', None):
@@ -219,6 +290,7 @@ def install_loop_rule(it):
                     ctx.assume(it.as_bool_term(c) if not isinstance(c, bool) else c)
                 from .values import BreakEx, ContinueEx
                 broke = False
+                it.barriers.append(barrier)
                 try:
                     for yv in it.exec_block(st.body, env, module):
                         if hasattr(spec, 'on_yield'):
@@ -229,6 +301,8 @@ def install_loop_rule(it):
                     pass
                 except BreakEx:
                     broke = True
+                finally:
+                    it.barriers.remove(barrier)
                 if broke:
                     return      # continue after the loop with the current state
                 for nm, g in spec.inv(it, env, k + 1):
@@ -248,8 +322,11 @@ def install_loop_rule(it):
                     ctx.assume(k >= 0)
                     for nm, g in (spec.inv_assume(it, env, k) if hasattr(spec, 'inv_assume') else spec.inv(it, env, k)):
                         ctx.assume(g)
+                    cut.after()
                     c = it.truth(it.eval(st.test, env, module))
                     ctx.assume(z3.Not(it.as_bool_term(c)) if not isinstance(c, bool) else (not c))
+                if is_for:
+                    cut.after()
                 if st.orelse:
                     for _ in it.exec_block(st.orelse, env, module):
                         raise Unsupported('yield')
